@@ -17,6 +17,8 @@ TOKENS = [
     ("%4٣", "malformed-nonascii-digit"), ("%٣a", "malformed-nonascii-digit"), ("%４１", "malformed-nonascii-digit"), ("%٣٣", "malformed-nonascii-digit"),
     ("%EF%BC%A0", "esc-nfkc-lookalike"), ("%EF%BC%9A", "esc-nfkc-lookalike"), ("%EF%BC%8F", "esc-nfkc-lookalike"), ("%EF%BC%9F", "esc-nfkc-lookalike"), ("%EF%BC%83", "esc-nfkc-lookalike"),
     ("%E2%84%80", "esc-nfkc-lookalike"), ("％", "raw-nonascii"), ("%EF%BC%85", "esc-nfkc-lookalike"),
+    ("%E2%80%8B", "esc-zero-width"), ("%EF%BB%BF", "esc-zero-width"), ("%E2%81%A0", "esc-zero-width"), ("%E2%80%8D", "esc-zero-width"), ("%C2%AD", "esc-zero-width"),
+    ("ß", "raw-nonascii"), ("%C3%9F", "esc-utf8"), ("ſ", "raw-nonascii"),
     ("%5B", "esc-bracket"), ("%5D", "esc-bracket"), ("%5b", "esc-bracket"), ("[", "raw-bracket"), ("]", "raw-bracket"),
     ("amp;", "amp-entity-tail"), ("amp%3B", "amp-entity-tail"), ("%2541", "nested"), ("%252F", "nested"), ("%25%34%31", "nested"), ("%2525", "nested"),
 ]
@@ -26,7 +28,7 @@ for t, c in TOKENS:
 
 # the core alphabet enumerated exhaustively (one or two representatives per class of the quantifier)
 CORE = ["a", "z", "1", ".", "!", "+", ":", "@", "/", "?", "=", "&", "#", "%2F", "%3F", "%23", "%26", "%3D", "%40", "%3A", "%25", "%2B", "%41", "%34", "%c3%a9", "%cE%b1",
-        "é", " ", "%20", "%", "%4", "%zz", "%4٣", "%EF%BC%A0", "%5B", "%E9", "%E2%82", "%00", "%0A", "%7F", "%C2%80", "%2541"]
+        "é", " ", "%20", "%", "%4", "%zz", "%4٣", "%EF%BC%A0", "%5B", "%E2%80%8B", "%E9", "%E2%82", "%00", "%0A", "%7F", "%C2%80", "%2541"]
 
 
 def classes_of(tokens):
